@@ -1,6 +1,5 @@
 import Deb822Verif.Props.C05
 import Deb822Verif.Props.C04Tokens
-import Deb822Verif.Model.DebWrap
 /-!
 # C05 (tokens) — paragraph operations on documents whose root holds bare tokens
 
@@ -114,6 +113,20 @@ theorem C05_frame_add_prefix (d : Doc) :
       subst this
       exact ⟨_, by simp only [List.append_assoc]; rfl⟩
 
+/-- **`terminate_last_line` when the last child of the root is a bare token**: `last.parent()` is
+    the ROOT itself, so the NEWLINE token is appended to the root's children — the child list grows
+    by one (this is what `terminateLastLine_length_allNodes` excluded); nothing happens when that
+    token is a NEWLINE (every live result of `wrap_and_sort` whose last child is a token ends so) -/
+theorem C05_terminate_root_token (init : List DNode) (k : Kind) (t : Str) :
+    terminateLastLine (init ++ [.tok k t]) =
+      if k = .NEWLINE then init ++ [.tok k t] else init ++ [.tok k t, .tok .NEWLINE ['\n']] := by
+  unfold terminateLastLine lastLeafKind
+  rw [lastTok_snoc_tok]
+  simp only [Option.map_some]
+  split
+  · rfl
+  · simp
+
 /-- the node-only statement of `Props/C05.lean` follows -/
 theorem C05_frame_add_of_any (d : Doc) (h : ∀ c ∈ d.kids, c.isNode = true) :
     (addParagraph d).kids =
@@ -196,5 +209,108 @@ theorem C05_history_refines_wrapped (s : Str) (le : Option (DNode → DNode → 
     ∧ ditems d'.kids = M.order.map (fun h => ((M.paras[h]?).join).getD [])
     ∧ ∀ h ∈ M.order, ∃ m, M.paras[h]? = some (some m) :=
   C04_history_oracle_any w.children ops
+
+
+/-! ## paragraphs stay separated on wrapped documents: the re-read clause
+
+  Start = the live result `w` of `Deb822::wrap_and_sort(None, None)` on a parsed well-formed
+  document. Its root holds bare tokens, so the unit-list invariant `UWF` of `Lemmas/DebEditDoc.lean`
+  (one node per unit) does not describe it; `Lemmas/DebEditTok.lean` extends it (`RUnit`, `RInv`):
+  every edit keeps `RInv`, and a document satisfying `RInv` prints the text of a well-formed
+  `DocS` with the same paragraphs (`rinv_flat`: a paragraph absorbs the bare comment lines behind
+  it, as a reader does). -/
+
+/-- `wrap_and_sort(None, None)` on the tree of a `DocS` never panics; its children are the root
+    units `wrapUnits` -/
+theorem C05_wrapped_exists (d0 : DocS) :
+    ∃ w, deb822Wrap none none d0.tree = some w ∧ w.children = rkids (wrapUnits d0) :=
+  ⟨_, deb822Wrap_runits d0, rfl⟩
+
+/-- **whole histories on a wrapped document**, live form: `w` = the live result of
+    `wrap_and_sort(None, None)` on a parsed well-formed document, ANY handles on it, any history of
+    field edits and paragraph operations with valid arguments: the printed document is accepted by
+    the strict reader without error and reads back to exactly the live paragraphs that have a field,
+    in order — paragraphs never fuse, although free-standing comment lines are bare tokens and the
+    blank lines around them were dropped. -/
+theorem C05_reread_wrapped_live (d0 : DocS) (hwf : d0.WF) (w : DNode)
+    (hw : deb822Wrap none none d0.tree = some w) (d : Doc) (hd : d.kids = w.children)
+    (ops : List EditOp) (hv : ∀ o ∈ ops, o.Valid) :
+    let d' := run d ops
+    ∃ s : DocS, s.WF ∧ s.str = d'.root.text ∧ parse d'.root.text = ⟨s.tree, []⟩
+      ∧ readStrict d'.root.text = .ok s.tree
+      ∧ docItems s.tree = (ditems d'.kids).filter nonEmpty :=
+  C04_reread_history_wrapped d0 hwf w hw d hd ops hv
+
+/-- **oracle step (4) on a wrapped document, in terms of the list model** (`C05_history_reread_model`
+    with start `w`): one handle per paragraph of `w`, any history with valid arguments; the printed
+    document re-reads — strictly, without error — to exactly the model's paragraphs in the model's
+    order, the empty ones left out -/
+theorem C05_reread_wrapped (d0 : DocS) (hwf : d0.WF) (w : DNode)
+    (hw : deb822Wrap none none d0.tree = some w) (ops : List EditOp) (hv : ∀ o ∈ ops, o.Valid) :
+    let d' := run (startOf w.children) ops
+    let M := mrun (LModel.init w.children) ops
+    ∃ s : DocS, s.WF ∧ s.str = d'.root.text ∧ parse d'.root.text = ⟨s.tree, []⟩
+      ∧ readStrict d'.root.text = .ok s.tree
+      ∧ docItems s.tree = (M.order.map (fun h => ((M.paras[h]?).join).getD [])).filter nonEmpty := by
+  obtain ⟨s, h1, h2, h3, h4, h5⟩ := C05_reread_wrapped_live d0 hwf w hw (startOf w.children) rfl ops hv
+  refine ⟨s, h1, h2, h3, h4, ?_⟩
+  rw [h5]
+  have := (C04_history_oracle_any w.children ops).2.1
+  exact congrArg (List.filter nonEmpty) this
+
+/-- the wrapped document itself (empty history) re-reads to the paragraphs of the parsed one -/
+theorem C05_reread_wrapped_start (d0 : DocS) (hwf : d0.WF) (w : DNode)
+    (hw : deb822Wrap none none d0.tree = some w) :
+    ∃ s : DocS, s.WF ∧ s.str = w.text ∧ parse w.text = ⟨s.tree, []⟩ ∧ readStrict w.text = .ok s.tree
+      ∧ docItems s.tree = (docItems w).filter nonEmpty := by
+  have hw' : w = .node .ROOT (rkids (wrapUnits d0)) := by
+    have := deb822Wrap_runits d0
+    rw [hw] at this; exact Option.some.inj this
+  obtain ⟨s, h1, h2, h3, h4, h5⟩ := C05_reread_wrapped_live d0 hwf w hw ⟨w.children, []⟩ rfl [] (by simp)
+  subst hw'
+  exact ⟨s, h1, h2, h3, h4, h5⟩
+
+/-! ### non-vacuity -/
+
+example : C03.exDoc.WF := by decide
+example : ∃ w, deb822Wrap none none C03.exDoc.tree = some w := ⟨_, (C05_wrapped_exists _).choose_spec.1⟩
+example : (deb822Wrap none none (parse "# only\n".toList).tree).map (fun w =>
+      (convertIndex w.children 0, (w.children.filter Node.isNode).length, w.children.length))
+    = some (none, 0, 2) := by decide +kernel
+/-- a root with bare tokens only: `add_paragraph` puts NO blank line in front of the new paragraph
+    (`children().count()` counts nodes), the comment line then leads the new paragraph -/
+example : (deb822Wrap none none (parse "# only\n".toList).tree).map (fun w =>
+      ((addParagraph (startOf w.children)).onPara 0 (fun cs => paraSet cs "N".toList "n".toList)).root.text)
+    = some "# only\nN: n\n".toList := by decide +kernel
+example : RInv (wrapUnits C03.exDoc) := by decide +kernel
+example : ∀ o ∈ C04.exOps, o.Valid := by decide
+/-- the invariant admits what the operations make of a wrapped document: a paragraph directly
+    followed by a bare comment line, an unterminated paragraph whose terminator is a bare NEWLINE
+    token, an empty paragraph behind bare tokens — and rejects a paragraph behind a paragraph's
+    comment line without a blank line in between -/
+example : RInv [.ctok " top".toList, .nltok,
+    .para [.entry { key := "A".toList, ws := [' '], v := "a".toList, nl := true, conts := [] }],
+    .ctok " c".toList, .nltok, .gap .blank,
+    .para [.entry { key := "B".toList, ws := [' '], v := "b".toList, nl := false, conts := [] }], .nltok,
+    .nltok, .ctok " x".toList, .nltok, .para []] := by decide +kernel
+example : ¬ RInv [.para [.entry { key := "A".toList, ws := [' '], v := "a".toList, nl := true, conts := [] }],
+    .ctok " c".toList, .nltok, .para []] := by decide +kernel
+
+/-! ## regression: F-C05-3 (`add_paragraph` on a document with bare tokens under the root) -/
+
+/-- the witness of F-C05-3, on the repaired code: wrap `# top⏎⏎A: a⏎⏎# mid⏎⏎B: b⏎` (the comment
+    lines become bare tokens, the blank lines around them go), `add_paragraph`, then `set N: n`
+    through the returned handle (number 2): the paragraphs are `[A]`, `[B]`, `[N]` IN THIS ORDER and
+    the text is as expected. (Before the repair the new paragraph landed between `A` and `B`.) -/
+theorem C05_fixed_add_on_wrapped :
+    (deb822Wrap none none (parse "# top\n\nA: a\n\n# mid\n\nB: b\n".toList).tree).map (fun w =>
+      (w.text, (startOf w.children).handles.length))
+      = some ("# top\nA: a\n\n# mid\nB: b\n".toList, 2)
+    ∧ (deb822Wrap none none (parse "# top\n\nA: a\n\n# mid\n\nB: b\n".toList).tree).map (fun w =>
+      let d := (addParagraph (startOf w.children)).onPara 2 (fun cs => paraSet cs "N".toList "n".toList)
+      (ditems d.kids, d.root.text))
+      = some ([[("A".toList, "a".toList)], [("B".toList, "b".toList)], [("N".toList, "n".toList)]],
+              "# top\nA: a\n\n# mid\nB: b\n\nN: n\n".toList) := by
+  decide +kernel
 
 end Deb822Verif.Props.C05Tokens
